@@ -31,12 +31,22 @@ Sections == {"capabilities", "extensions", "ext_inst_imports", "memory_model", "
              "debug_string_source", "debug_names", "debug_module_processed", "annotations", "types_global_values", "functions"}
 SameSections(a, b) == \A s \in Sections : a[s] = b[s]
 
+\* The property lists the structural errors by category ("nested / unclosed / mismatched end or terminator /
+\* detached parameter, block or instruction") and asks for "the structural error matching the first offending
+\* instruction".  Where two categories describe the same situation either name matches it: a terminator with no
+\* open block is a mismatched terminator and a detached instruction; an OpFunctionEnd while a block is open is an
+\* unclosed block and a mismatched end; at the end of the input an open block inside an open function is an
+\* unclosed block and an unclosed function.
+ErrMatches(specErr, got) ==
+  \/ got = specErr
+  \/ specErr = "MismatchedTerminator" /\ got = "DetachedInstruction"
+  \/ specErr = "UnclosedBlock" /\ got \in {"MismatchedFunctionEnd", "UnclosedFunction"}
 \* (a) direct feeding: outcome, error variant and the index of the offending instruction
 DirectOK(e, exp) ==
   \E o \in exp :
      /\ o.st = e.direct.st
      /\ IF o.st = "ok" THEN SameSections(o.m, e.direct.m[1])
-        ELSE o.e = e.direct.e /\ o.at = e.direct.at
+        ELSE ErrMatches(o.e, e.direct.e) /\ o.at = e.direct.at
 \* (b) through the parser: same outcome and module; the header carries the input's version and bound
 WordsOK(e, exp) ==
   \E o \in exp :
@@ -46,7 +56,7 @@ WordsOK(e, exp) ==
              /\ Len(e.words.m[1].header) = 1
              /\ e.words.m[1].header[1].version = e.in_version
              /\ e.words.m[1].header[1].bound = e.in_bound
-        ELSE o.e = e.words.e
+        ELSE ErrMatches(o.e, e.words.e)
 
 \* C01 exclusions: OpLine/OpNoLine inside a function but outside any block; more than one OpMemoryModel
 Excluded(e) ==
